@@ -737,7 +737,9 @@ def stepWire (d : DState) (toks : List String) (impl : String) : DState × Verdi
       let model := match decodeIn sh allow j with
         | .ok cs => "ok " ++ showCList cs
         | .error e => showCErr e
-      (d, { model := model })
+      let viol := if d.pid == "C19" && impl == "panic" then
+          some (pfx d s!"decode_total: decoding the content member of a {ctx} wrapper panicked") else none
+      (d, { model := model, violated := viol })
     | _, _ => bad d
   | "c.fuzz" :: _ =>
     let viol := if impl == "panic" then some (pfx d "decode_total: content/params decoder panicked on input bytes") else none
